@@ -178,7 +178,15 @@ func (c *c07) RunCase(w *core.Worker, idx int, seed uint64, res *core.CaseResult
 			for _, restart := range []bool{false, true} {
 				total++
 				c.oneFault(res, steps, s, site, restart, refStates, &retried)
-				if len(res.Findings) > 40 {
+				// stop a case that keeps failing (every failing repeat costs its full deadline); the class that is
+				// recorded as known finding does not count
+				bad := 0
+				for _, f := range res.Findings {
+					if !strings.HasPrefix(f.Key, "C07/cache-read-failure-is-invisible/") {
+						bad++
+					}
+				}
+				if bad > 6 {
 					goto done
 				}
 			}
@@ -326,6 +334,7 @@ func (c *c07) oneFault(res *core.CaseResult, steps [][]stepIntent, s int, site c
 		}
 		// the same request again, the fault is gone
 		done := make(chan setOutcome, 1)
+		w.run.setTimeout = 6 * time.Second // a datastore that is free answers in milliseconds
 		go func() { done <- w.run.set(id, steps[s], nil, time.Minute, false) }()
 		var out2 setOutcome
 		select {
